@@ -81,7 +81,7 @@ pub enum AddrE {
 
 #[derive(Debug, Clone, Serialize, Deserialize, PartialEq)]
 pub enum RefE {
-    Lit(Vec<u8>, u32),
+    Lit(Vec<u8>, u64),
     Param(String),
 }
 
@@ -1303,9 +1303,12 @@ pub fn generate(c: &mut Chooser) -> Scenario {
     }
 
     // references / collateral
-    match g.pick("reference", &["none", "literal", "param"]) {
+    match g.pick("reference", &["none", "literal", "param", "literal-index-65539", "literal-index-beyond-32-bits"]) {
         0 => {}
         1 => prog.references.push(("refscript".into(), RefE::Lit(vec![0xEE; 32], 2))),
+        // an output index is a full integer; one the IR cannot hold (32 bits) has to be refused, not cut down
+        3 => prog.references.push(("refscript".into(), RefE::Lit(vec![0xEE; 32], 65539))),
+        4 => prog.references.push(("refscript".into(), RefE::Lit(vec![0xEE; 32], (1u64 << 32) + 3))),
         _ => {
             prog.params.push(("rin".into(), ParamTy::UtxoRef));
             prog.references.push(("refscript".into(), RefE::Param("rin".into())));
